@@ -331,9 +331,46 @@ def close_engine(name, mod):
     return insts
 
 
+ELEMENTWISE = (pl.Series, pd.Series, pd.Index, np.ndarray, pl.DataFrame, pd.DataFrame)  # `a == b` is an array, not a bool; unhashable
+UNHASHABLE = (list, dict, set)
+
+
+def value_objects(name, mod):
+    """every registered data type class is a VALUE OBJECT: its (dataclass-generated) __eq__ / __hash__ compare the fields declared
+    with compare=True, so each of those must be of a type whose == gives one bool and that can be hashed - decided on the class
+    definitions (all instances), given that fields hold what their annotation says"""
+    import dataclasses
+    import typing
+
+    tag = f"[{name}] "
+    n = 0
+    for c in sorted(mod.Engine.get_registered_dtypes(), key=lambda c: c.__qualname__):
+        if not dataclasses.is_dataclass(c):
+            continue
+        eq = next((k.__dict__["__eq__"] for k in c.__mro__ if "__eq__" in k.__dict__), None)
+        if getattr(getattr(eq, "__code__", None), "co_filename", "<string>") != "<string>":
+            continue  # a hand-written __eq__: its own business (source under contract elsewhere)
+        try:
+            hints = typing.get_type_hints(c)
+        except Exception:
+            hints = {}
+        for f in dataclasses.fields(c):
+            if not f.compare:
+                continue
+            t = hints.get(f.name, f.type)
+            parts = typing.get_args(t) if typing.get_origin(t) is typing.Union else (t,)
+            bad = [p for p in parts if isinstance(p, type) and (issubclass(p, ELEMENTWISE) or issubclass(p, UNHASHABLE))]
+            n += 1
+            if bad:
+                rec("data_types_are_value_objects", False, tag + f"{c.__qualname__}.{f.name}: {getattr(bad[0], '__name__', bad[0])} takes part in == and hash() of the data type "
+                    "(comparing two such types raises or yields an array, hashing raises)")
+    rec("data_types_are_value_objects", True, tag + f"{n} compared fields of registered classes are of scalar / hashable declared types")
+
+
 def main():
     for name, mod in ENGINES.items():
         close_engine(name, mod)
+        value_objects(name, mod)
     # --- the lazily imported pyarrow engine must not change what a spelling means -----------------------------------------
     PE = pandas_engine.Engine
     reg = ENG.Engine._registry[PE]
